@@ -413,6 +413,30 @@ def preservBlock (s : EqSystem) (rrefPreserv : Bool) (redP : Reduced α) (x para
   | none => .error "TypeError"
   | some b => .ok (if rrefPreserv then linearExprsRref redP x else linearExprs B x b)
 
+/-- `NumSysLin.f(yvec, params)` with `rref_equil = False` in either `rref_preserv` configuration.  Needs rational
+    arithmetic only (no `exp`/`log`/real powers), so it is instantiated with `Rat` and compared EXACTLY with the real
+    code; it is `numSysLinCfgF … false rp …` (lemma `numSysLinCfgF_false_eq_rp`). -/
+def numSysLinRpF (s : EqSystem) (precipitates : List Bool) (small : α) (rrefPreserv : Bool) (redP : Reduced α)
+    (y params : List α) : Except String (List α) :=
+  if !shapeOk s y params then .error "shape" else
+  if s.rxns.isEmpty then .error (if s.ns ≤ 1 then "TypeError" else "ValueError") else
+  let rids := nonPrecipRids s precipitates
+  let ks := eqConstants rids (eqParamsOf s params) small
+  match stoichs s rids with
+  | .error e => .error e
+  | .ok A =>
+    match prodPow y A with
+    | .error e => .error e
+    | .ok qs =>
+      match preservBlock s rrefPreserv redP y params with
+      | .error e => .error e
+      | .ok fp => .ok (List.zipWith equilResidual qs ks ++ fp)
+
+/-- `NumSysSquare.f` with `rref_equil = False`, either `rref_preserv` -/
+def numSysSquareRpF (s : EqSystem) (precipitates : List Bool) (small : α) (rrefPreserv : Bool) (redP : Reduced α)
+    (y params : List α) : Except String (List α) :=
+  numSysLinRpF s precipitates small rrefPreserv redP (y.map fun yi => yi * yi) params
+
 /-- `NumSysLin.f(yvec, params)` in configuration `(rref_equil, rref_preserv)`; `redE` / `redP` are the reducer's
     outputs for the equilibrium / conservation system (ignored when the flag is off).  With both flags off this is
     `numSysLinF` (theorem `numSysLinCfgF_false_false`). -/
